@@ -48,10 +48,10 @@ def run(P, R, tier):
     R.floor("array_to_delayed_list call sites", ncall, 3)
     nb = ncb = npure = ncov = 0
     for key, sinks in SITES.items():
-        nb += proto.check_branch(P, R, key)
-        ncb += proto.check_copyback(P, R, own, key, sinks)
-        npure += proto.check_tasks_pure(P, R, own, key, sinks, allow=PURE_ALLOW)
-        ncov += proto.check_cover_tasks(P, R, key)
+        nb += proto.check_branch(P, R, proto.site_func(P, key))
+        ncb += proto.check_copyback(P, R, own, proto.site_func(P, key), sinks)
+        npure += proto.check_tasks_pure(P, R, own, proto.site_func(P, key), sinks, allow=PURE_ALLOW)
+        ncov += proto.check_cover_tasks(P, R, proto.site_func(P, key))
     R.floor("BRANCH sites", nb, 11)
     from ..engines import proto as _proto
     R.floor("PARTITION.by-class definitions", _proto.check_class_split(P, R), 2)
